@@ -2,7 +2,7 @@
    ONLY statements: each theorem is closed by `exact` of a lemma proved elsewhere and followed by Print Assumptions. *)
 From Coq Require Import ZArith NArith List Bool Lia Permutation FMapPositive.
 Import ListNotations.
-Require Import Base Strings Builtins Interp Machine Events.
+Require Import Base Strings Builtins Interp Machine Events EventsMatch.
 
 Theorem observer_transparent lim s :
   match step_with lim s, step_with lim (erase s) with
@@ -23,4 +23,31 @@ Theorem depth_zero_at_end lim n prog stdin s o :
   depth (m_dbg s) = 0%nat /\ replay (rev (events (m_dbg s))) [] = Some [].
 Proof. exact (Events.depth_zero_at_end lim n prog stdin s o). Qed.
 Print Assumptions depth_zero_at_end.
+
+(* what acceptance by the bracket checker MEANS, in the property's words: every 'about to evaluate' event of an accepted stream that ends no deeper than it began is followed by a 'finished' event of the same depth and the same delayed expression; what lies between is well nested above it and no prefix of it closes the pending evaluation - so that event is THE match *)
+Theorem before_has_its_after d t sp r base s' :
+  replay (EB d t sp :: r) base = Some s' -> (length s' <= length base)%nat ->
+  exists inner sp' k rest, r = inner ++ EA d t sp' k :: rest /\ replay inner ((d, t) :: base) = Some ((d, t) :: base) /\ replay rest base = Some s' /\
+    forall p q, inner = p ++ q -> exists top', replay p ((d, t) :: base) = Some (top' ++ (d, t) :: base).
+Proof. exact (EventsMatch.before_has_its_after d t sp r base s'). Qed.
+Print Assumptions before_has_its_after.
+
+(* the depth of an 'about to evaluate' event is one more than the number of evaluations pending *)
+Theorem before_depth d t sp r base s' :
+  replay (EB d t sp :: r) base = Some s' -> d = S (length base).
+Proof. exact (EventsMatch.before_depth d t sp r base s'). Qed.
+Print Assumptions before_depth.
+
+(* counting: begun + pending before = finished + pending after *)
+Theorem replay_counts  :
+  forall evs s s', replay evs s = Some s' -> (befores evs + length s = afters evs + length s')%nat.
+Proof. exact (EventsMatch.replay_counts ). Qed.
+Print Assumptions replay_counts.
+
+(* on the machine: when a run ends (value or language error) exactly as many 'finished' events as 'about to evaluate' events were delivered *)
+Theorem finished_run_is_balanced lim n prog stdin s o :
+  msteps lim n (init prog stdin) = inl s -> step_with lim s = inr o -> (exists v, o = ODone v) \/ (exists e, o = OErr e) ->
+  befores (rev (events (m_dbg s))) = afters (rev (events (m_dbg s))).
+Proof. exact (EventsMatch.finished_run_is_balanced lim n prog stdin s o). Qed.
+Print Assumptions finished_run_is_balanced.
 
